@@ -1321,7 +1321,9 @@ def op_upcast(tree, facts, rng, want):
             if model.is_builtin(m['ty']):
                 if want == 'upcast-unsupported' and m['upcast'] is None:
                     cast = 'u64' if m['ty'] in ('u8', 'u16', 'u32', 'Bool') else 'u32'
-                    out.append(mk('upcast-unsupported', 'builtin', o, facts.site(o, ctx_name(ctx), f'builtin-{m["ty"]}'),
+                    # integers and the other built-in types are told apart by different code in the parser
+                    bk = 'builtin-integer' if re.fullmatch(r'[ui](8|16|32|48|64)(_be)?', m['ty']) else f'builtin-{m["ty"]}'
+                    out.append(mk('upcast-unsupported', bk, o, facts.site(o, ctx_name(ctx), f'builtin-{m["ty"]}'),
                                   [ins_before(f, m['ty_tok'], f'({cast})')], f'member {m["name"]}: {m["ty"]} -> ({cast}){m["ty"]}', extra=ux))
                 continue
             t = member_target(tree, o, m)
@@ -1403,20 +1405,22 @@ def op_index(tree, facts, rng, want):
                 base, suffix = base[:-len(sfx)], sfx
         newname = base + '_VERIF' + suffix
         ex = '+'.join(exps)
+        # the two halves of a MSG_* pair share one index entry
+        mkind = '@' + (o['kind'] if not suffix else 'msg' + suffix.lower().replace('_', '-'))
         if want == 'opcode-mismatch':
             v = rng.choice(free)
-            out.append(mk(want, 'unused-opcode', o, facts.site(o, ex, 'unused-opcode'), [rep_tok(f, o['opcode_tok'], f'0x{v:04X}')],
+            out.append(mk(want, 'unused-opcode' + mkind, o, facts.site(o, ex, 'unused-opcode'), [rep_tok(f, o['opcode_tok'], f'0x{v:04X}')],
                           f'opcode of {o["name"]}: {o["opcode_raw"]} -> 0x{v:04X} (in no index)'))
             others = sorted(set(tree.index[exps[0]].values()) - {wowm.parse_value(o['opcode_raw'])})
             v = rng.choice(others)
-            out.append(mk(want, 'opcode-of-another-message', o, facts.site(o, ex, 'opcode-of-another-message'), [rep_tok(f, o['opcode_tok'], f'0x{v:04X}')],
+            out.append(mk(want, 'opcode-of-another-message' + mkind, o, facts.site(o, ex, 'opcode-of-another-message'), [rep_tok(f, o['opcode_tok'], f'0x{v:04X}')],
                           f'opcode of {o["name"]}: {o["opcode_raw"]} -> 0x{v:04X} (belongs to another message)'))
         elif want == 'name-mismatch':
-            out.append(mk(want, 'renamed', o, facts.site(o, ex, 'renamed'), [rep_tok(f, o['name_tok'], newname)],
+            out.append(mk(want, 'renamed' + mkind, o, facts.site(o, ex, 'renamed'), [rep_tok(f, o['name_tok'], newname)],
                           f'{o["name"]} renamed to {newname} (opcode {o["opcode_raw"]} unchanged)', names=[newname]))
         else:
             v = rng.choice(free)
-            out.append(mk(want, 'renamed+unused-opcode', o, facts.site(o, ex, 'renamed+unused-opcode'),
+            out.append(mk(want, 'renamed+unused-opcode' + mkind, o, facts.site(o, ex, 'renamed+unused-opcode'),
                           [rep_tok(f, o['name_tok'], newname), rep_tok(f, o['opcode_tok'], f'0x{v:04X}')],
                           f'{o["name"]} = {o["opcode_raw"]} -> {newname} = 0x{v:04X}', names=[newname]))
     return out
